@@ -192,6 +192,35 @@ def run(ctx):
                 if diff:
                     ctx.violation(f"annotation changes under {vkind}: {diff}", {"structure": name, "base": bkind, "transformation": vkind,
                                                                                 "before": {k: want[k] for k in diff}, "after": {k: got[k] for k in diff}, "min_margin": min(mref, m2)})
+            # (v') rigid translation + serialisation: the moved atoms written as PDB / mmCIF (3 decimals) and read back
+            for shift in ((-160.0, 0.0, 0.0), (-400.0, -400.0, -400.0), (350.0, -120.0, 900.0)):
+                movedS = geo.rebuild(base, lambda res, a: (round(a.x + shift[0], 3), round(a.y + shift[1], 3), round(a.z + shift[2], 3), a.occupancy))
+                tbl = to_table(movedS)
+                if not tbl or any(abs(r["x1000"]) > 9000000 or abs(r["y1000"]) > 9000000 or abs(r["z1000"]) > 9000000 for r in tbl):
+                    continue
+                refm = full(movedS)
+                mm = min_margin(movedS)
+                for fmt in ("pdb", "cif"):
+                    path = os.path.join(d, "m." + fmt)
+                    open(path, "w").write(genatoms.emit_pdb(tbl) if fmt == "pdb" else genatoms.emit_cif(tbl))
+                    try:
+                        with open(path) as f:
+                            s3f = read_3d_structure(f)
+                        gotm = full(s3f)
+                    except Exception as e:  # noqa: BLE001
+                        ctx.violation(f"annotation of a translated copy written as {fmt} raised {type(e).__name__}: {e}", {"structure": name, "shift": shift})
+                        continue
+                    decided = min(mm, min_margin(s3f), mref) >= 1e-6
+                    ctx.count((name, bkind, "moved+" + fmt, shift), nonempty and decided, "moved+" + fmt)
+                    if not decided:
+                        excluded += 1
+                        continue
+                    diff = [k for k in refm if refm[k] != gotm[k]]
+                    diff0 = [k for k in ref if k not in ("bpseq",) and ref[k] != gotm[k]]
+                    if diff or diff0:
+                        ctx.violation(f"annotation changes when the translated atoms are supplied as {fmt}: {diff or diff0}",
+                                      {"structure": name, "base": bkind, "shift": shift, "format": fmt,
+                                       "in_memory": {k: refm[k] for k in (diff or diff0)}, "from_file": {k: gotm[k] for k in (diff or diff0)}})
             # (v) PDB vs mmCIF of the same atoms
             table = to_table(base)
             if table:
